@@ -191,6 +191,14 @@ func (d *OrderedDaemon) BackgroundWorker(name string, handler WorkerFunc, order 
 	d.lock.Lock()
 	defer d.lock.Unlock()
 
+	// check again while holding the lock: a shutdown may have started (or even finished
+	// and cleared the daemon) since the check above. stopWorkers copies the workers under
+	// this lock after the stopped flag was set, so a worker added after the flag is set
+	// would never be cancelled.
+	if d.IsStopped() {
+		return ErrDaemonAlreadyStopped
+	}
+
 	exWorker, workerExistsAlready := d.workers[name]
 	if workerExistsAlready {
 		if !d.running.Load() {
